@@ -499,6 +499,52 @@ func FieldRead(v ssa.Value) (base ssa.Value, field *types.Var, ok bool) {
 	return nil, nil, false
 }
 
+// ExitLiveEdges lists the values a loop-header phi can have when the loop is
+// left through the header's own test. An incoming edge on which the test's
+// flag (a phi of the same block) is a constant that sends control into the
+// loop contributes nothing there: `for more := true; more; { … }` is never
+// left on its entry edge, so a variable's initial value is not among the
+// values seen after the loop. All edges are returned when this shape is not
+// recognised.
+func ExitLiveEdges(phi *ssa.Phi) []ssa.Value {
+	h := phi.Block()
+	all := append([]ssa.Value{}, phi.Edges...)
+	if len(h.Instrs) == 0 || len(h.Succs) != 2 {
+		return all
+	}
+	iff, ok := h.Instrs[len(h.Instrs)-1].(*ssa.If)
+	if !ok {
+		return all
+	}
+	cv, neg := iff.Cond, false
+	if u, isNot := cv.(*ssa.UnOp); isNot && u.Op == token.NOT {
+		cv, neg = u.X, true
+	}
+	cp, ok := cv.(*ssa.Phi)
+	if !ok || cp.Block() != h || len(cp.Edges) != len(phi.Edges) {
+		return all
+	}
+	var out []ssa.Value
+	for i, e := range phi.Edges {
+		k, isK := cp.Edges[i].(*ssa.Const)
+		if isK && k.Value != nil && (k.Value.String() == "true" || k.Value.String() == "false") {
+			t := (k.Value.String() == "true") != neg
+			taken := h.Succs[1]
+			if t {
+				taken = h.Succs[0]
+			}
+			if blockReaches(taken, h) {
+				continue // enters the loop: not an exit
+			}
+		}
+		out = append(out, e)
+	}
+	if len(out) == 0 {
+		return all
+	}
+	return out
+}
+
 // IsForwarder reports whether f is a pure forwarder (see forwardTarget).
 func (p *Prog) IsForwarder(f *ssa.Function) bool { return p.forward[f] != nil }
 
@@ -3008,7 +3054,34 @@ func ResultFieldVals(g *ssa.Function, i, k int) (out []FieldVal, ok bool) {
 		if i >= len(r.Results) {
 			return nil, false
 		}
+		if g.Recover != nil && r.Block() == g.Recover {
+			continue // the exit taken after a recovered panic
+		}
 		v := r.Results[i]
+		// a function with defers returns through a result cell: `*res = v; rundefers; return *res`
+		for depth := 0; depth < 3; depth++ {
+			ld0, isLd := v.(*ssa.UnOp)
+			if !isLd || ld0.Op != token.MUL {
+				break
+			}
+			cell, isAl := ld0.X.(*ssa.Alloc)
+			if !isAl {
+				break
+			}
+			var last *ssa.Store
+			for _, ins := range ld0.Block().Instrs {
+				if ins == ssa.Instruction(ld0) {
+					break
+				}
+				if st, isSt := ins.(*ssa.Store); isSt && st.Addr == ssa.Value(cell) {
+					last = st
+				}
+			}
+			if last == nil {
+				break
+			}
+			v = last.Val
+		}
 		if c, isC := v.(*ssa.Const); isC && c.Value == nil {
 			out = append(out, FieldVal{Zero: true, Ret: r})
 			continue
